@@ -320,8 +320,8 @@ _repl2 = regex.compile(r"(\p{Pd}|[\u2010-\u2015]|\u2043)+", regex.VERSION1)
 
 
 def _get_labels(txt: str) -> str:
-    # a label starts with a character that is neither a digit nor a blank ("C# 17 uhr" has no label)
-    labels = re.findall(r'#[^\d\s][a-zA-Z0-9_-]*', txt)
+    # a label starts with a letter or an underscore ("C# 17 uhr" and "#?" have no label)
+    labels = re.findall(r'#[^\W\d][a-zA-Z0-9_-]*', txt)
     labels = [label.replace("#", "") for label in labels]
     return labels
 
